@@ -269,7 +269,13 @@ func c17Ops() []c17Op {
 				for _, e := range d.Entities() {
 					_ = e.Description()
 					_ = e.EntityType()
-					_ = e.Address()
+					// (what an application does with an address: look at its parts)
+					if a := e.Address(); a != nil {
+						_ = world.EntAddrStr(a)
+					}
+					for _, f := range e.Features() {
+						_ = world.AddrStr(f.Address())
+					}
 				}
 				_ = c.w.L.SubscriptionManager().Subscriptions(d)
 				_ = c.w.L.BindingManager().Bindings(d)
